@@ -306,5 +306,46 @@ def multibandDesign (lib : List (AmpSpec α)) (ext : α) (c : NodeCtx) (ramanOk 
       | [] => none
       | t :: ts => some { permitted := rm, preselected := redfa, picks := picks, candidates := t :: ts }
 
+/-! ### a user-typed `Multiband_amplifier` -/
+
+/-- `network_from_json`: a typed Multiband_amplifier whose `amplifiers` are listed (each with its own
+type_variety) is accepted only if the given type is one of the entries listing all of them
+(`false` = ConfigurationError 'not consistent with its amps type varieties'); nothing listed = accepted -/
+def typedLoadOk (lib : List (AmpSpec α)) (tv : String) (listed : List String) : Bool :=
+  listed.isEmpty || (findTypeVariety lib listed).contains tv
+
+/-- one amplifier of a typed node: its own type_variety if it has one (`set_one_amplifier` keeps it), else a
+choice among the members of the typed entry that cover the amplifier's design band -/
+def typedPick (lib : List (AmpSpec α)) (ext : α) (ramanOk : Bool) (members : List String)
+    (a : BandTarget α × String) : Option String :=
+  if a.2 ≠ "" then some a.2 else bandPick lib ext ramanOk members a.1
+
+def typedPickAll (lib : List (AmpSpec α)) (ext : α) (ramanOk : Bool) (members : List String) :
+    List (BandTarget α × String) → Option (List String)
+  | [] => some []
+  | a :: as =>
+    match typedPick lib ext ramanOk members a with
+    | none => none
+    | some p =>
+      match typedPickAll lib ext ramanOk members as with
+      | none => none
+      | some ps => some (p :: ps)
+
+/-- `set_egress_amplifier` on a Multiband_amplifier whose type_variety `tv` was given by the user:
+`restrictions_edfa` = the members of `tv`; every amplifier of the node (own type or not) in turn; then
+`find_type_variety` over the picks names the node again. `none` = ConfigurationError. -/
+def typedDesign (lib : List (AmpSpec α)) (ext : α) (tv : String) (ramanOk : Bool)
+    (amps : List (BandTarget α × String)) : Option MultiDesign :=
+  match lookup lib tv with
+  | none => none
+  | some e =>
+    let members := e.multiBand.getD []
+    match typedPickAll lib ext ramanOk members amps with
+    | none => none
+    | some picks =>
+      match findTypeVariety lib picks with
+      | [] => none
+      | t :: ts => some { permitted := [tv], preselected := members, picks := picks, candidates := t :: ts }
+
 end
 end Gnpy.Select
